@@ -80,7 +80,13 @@ Obs == [objs |-> [o \in Objs |-> [must |-> MustObj(o), may |-> MayObj(o),
                                k \in SeqSet(RestOfMro(p[1], p[2])) \ {0}}] :
                   p \in SuperPairs}]
 
-Dump == PrintT(ToJson([hist |-> hist, obs |-> Obs]))
+Dump == PrintT(ToJson([kind |-> "obs", key |-> Key, hist |-> hist,
+                       obs |-> Obs]))
+\* every transition as a case: the first behaviour that reached its source
+\* state, extended by the transition (the observation of the target state is
+\* joined through Key); one case per STATE alone never exercises a
+\* history-dependent defect whose final state also has a shorter history
+EmitHist == PrintT(ToJson([kind |-> "edge", hist |-> hist', key |-> Key']))
 
 Emit == PrintT(ToJson([lvl |-> TLCGet("level"), from |-> Key, act |-> act',
                        to |-> Key', obs |-> Obs']))
